@@ -136,6 +136,11 @@ def section(kind, n, body="ctx", src="git"):
         lines = [b"diff --cc " + f, b"index 1111111,2222222..0000000", b"--- a/" + f, b"+++ b/" + f,
                  b"@@@ -1,3 -1,3 +1,9 @@@"] + bl
         info.update(event="combined", hunk_lines=bl)
+    elif kind == "binary_patch":
+        # `git diff --binary`: two base85 parts, each ended by an empty line
+        lines = [d, b"index 1111111..2222222 100644", b"GIT binary patch", b"literal 5", b"McmZQzU|?WiU|;|M00aO5", b"",
+                 b"literal 0", b"HcmV?d00001", b""]
+        info.update(event="binary", binary=True, has_hunk=False, hunk_lines=[])
     elif kind == "binary_noindex":
         # `git diff --no-index x y` of two binary files: the diff line names two different paths and
         # there are no ---/+++ lines
